@@ -5,7 +5,7 @@
    nested, overlapping or disjoint in protocol, address and port - the cases the tier flattener
    (flattener.go combineRules) has to intersect.  Every layout is printed as one `BEH` line and replayed
    through the real code by the drivers; the alphabet is printed once so that the Go side never has to
-   know it:   BEH {"alphabet": {code: PolicySem rule}}      BEH {"layout": {...}}
+   know it:   BEH {"alphabet": {code: PolicySem rule}, "sets": PolicySem ipsets}      BEH {"layout": {...}}
    layout = {"dir": "In"|"Out", "tiers": [{"name","defaultAction","policies":[[code]]}], "profile":[code]} *)
 EXTENDS Integers, Sequences, FiniteSets, TLC, Json, WinSem
 
@@ -22,7 +22,14 @@ Matches ==
        WinBlankRule,                                                                                    \* 3 anything
        [WinBlankRule EXCEPT !.proto = 6, !.dstPorts = << <<443, 443>> >>],                              \* 4 tcp dport 443 (disjoint from 1, 2)
        [WinBlankRule EXCEPT !.srcNets = <<Net10_1, Net11>>],                                            \* 5 from 10.1/16 or 11/8
-       [WinBlankRule EXCEPT !.proto = 17, !.dstNets = <<Net10>>, !.srcPorts = << <<53, 53>> >>] >>      \* 6 udp sport 53 -> 10/8
+       [WinBlankRule EXCEPT !.proto = 17, !.dstNets = <<Net10>>, !.srcPorts = << <<53, 53>> >>],        \* 6 udp sport 53 -> 10/8
+       [WinBlankRule EXCEPT !.srcNets = <<Net10>>, !.srcSets = <<"s:enumA">>],                           \* 7 from 10/8 AND in set A
+       [WinBlankRule EXCEPT !.proto = 6, !.dstSets = <<"s:enumA">>, !.dstPorts = << <<80, 80>> >>],     \* 8 tcp to set A port 80
+       [WinBlankRule EXCEPT !.srcSets = <<"s:enumE">>] >>                                               \* 9 from the empty set E (never matches)
+
+\* the IP sets of the alphabet: A overlaps 10/8 partly (10.1/16 and 10.1.2.3 inside, 11.0.0.1 outside), E is empty
+EnumSets == ("s:enumA" :> [type |-> "net", members |-> <<Net10_1, [a |-> <<11, 0, 0, 1>>, n |-> 32], [a |-> <<10, 1, 2, 3>>, n |-> 32]>>])
+            @@ ("s:enumE" :> [type |-> "net", members |-> <<>>])
 
 Code(a, k) == a \o ":" \o ToString(k)
 Codes == { Code(a, k) : a \in Acts, k \in MatchIds }
@@ -58,6 +65,6 @@ LayoutsOf(n) ==
         d \in {"In", "Out"}, tp \in TiersOf(n), nm \in NameChoices(n), da \in [1..n -> Defaults] }
 
 ASSUME MaxTiers \in 1..2
-ASSUME PrintT("BEH " \o ToJson([alphabet |-> Alphabet]))
+ASSUME PrintT("BEH " \o ToJson([alphabet |-> Alphabet, sets |-> EnumSets]))
 ASSUME \A n \in 1..MaxTiers : \A lay \in LayoutsOf(n) : PrintT("BEH " \o ToJson([layout |-> lay]))
 =============================================================================
